@@ -352,7 +352,7 @@ Definition rec_file (k : conf) (d : dstate) : reader dstate :=
   rbind (fun l => read_runs (S (length l)) k (c_hash_size s) (d_blockmax d) fbm 0 [] l) (fun blocks =>
   rret (with_st d (on_disk s di (add_file
     {| cf_size := v_size; cf_msec := msec; cf_mnsec := nsec; cf_inode := inode; cf_sub := sub;
-       cf_blocks := blocks |}))))))))).
+       cf_blocks := blocks |})))))))))).
 
 (* 'i': while (v_pos < blockmax) { v_count; range test; flag; [t]; while (v_count) info_set + "Missing info" } *)
 Fixpoint read_info (fuel : nat) (s : cstate) (bm oldest v_pos : N) (acc : list N) : reader (list N) :=
@@ -834,11 +834,15 @@ Definition norm_info (now oldest i : N) : N :=
   if i =? 0 then 0
   else info_make (u32 (info_wtime now oldest i) + oldest) (info_bad i) (info_rehash i) (info_justsynced i).
 
-Definition norm_disk (d : cdisk) (oi : option N) : cdisk :=
-  match oi with None => empty_disk (cd_name d) | Some _ => d end.
-Fixpoint norm_disks (dl : list cdisk) (il : list (option N)) : list cdisk :=
+(* a disk without mapping index is not written at all; DELETED blocks beyond blockmax are not written *)
+Definition norm_disk (bm : N) (d : cdisk) (oi : option N) : cdisk :=
+  match oi with
+  | None => empty_disk (cd_name d)
+  | Some _ => set_deleted (filter (fun ph => fst ph <? bm) (cd_deleted d)) d
+  end.
+Fixpoint norm_disks (bm : N) (dl : list cdisk) (il : list (option N)) : list cdisk :=
   match dl, il with
-  | d :: dt, oi :: it => norm_disk d oi :: norm_disks dt it
+  | d :: dt, oi :: it => norm_disk bm d oi :: norm_disks bm dt it
   | _, _ => []
   end.
 
@@ -863,5 +867,5 @@ Definition normalise (now : N) (s : cstate) : cstate :=
      c_prevhashseed := if keep_prev then c_prevhashseed s1 else zeros16;
      c_maps := filter (map_kept (c_disks s1) (p_idx p)) (c_maps s1);
      c_parity := map (norm_parity (version s1)) (c_parity s1);
-     c_disks := norm_disks (c_disks s1) (p_idx p);
+     c_disks := norm_disks (p_blockmax p) (c_disks s1) (p_idx p);
      c_info := map (norm_info now (p_oldest p)) (firstn (N.to_nat (p_blockmax p)) (c_info s1)) |}.
